@@ -126,17 +126,13 @@ Definition win_same_form (sw ow : window_size) : Prop :=
 (* the window does not refer to the observed MSS: literally the signature's form, or the signature says `*` *)
 Definition win_literal (s o : tcp_sig) : Prop := t_wsize o = t_wsize s \/ t_wsize s = WAny.
 
-(* ---- known classes (TCP): instances the unchanged matcher does not accept with distance 0 ---- *)
+(* ---- known class (TCP): instances the unchanged matcher does not accept with distance 0 ---- *)
 (* K1 TtlFormGap: the signature's ittl is not a plain value (`64-`, `64+?`, `54+10`) and the observation
    carries a hop-count TTL that is not literally the signature's: the matcher has no (Distance, Bad) /
    (Distance, Guess) arm (-> rejected) and compares (Distance, Distance) component-wise (-> 2). *)
 Definition ttl_form_gap (s o : tcp_sig) : bool :=
   negb (ttl_eqb (t_ittl o) (t_ittl s)) && match t_ittl s with TtlValue _ => false | _ => true end.
-(* K2 WinModRaw: the signature's window is `%n` and the observation carries a raw window value (a multiple
-   of n): the matcher has no (Value, Mod) arm (-> rejected). *)
-Definition win_mod_raw (s o : tcp_sig) : bool :=
-  match t_wsize s, t_wsize o with WMod _, WValue _ => true | _, _ => false end.
-Definition known_tcp (s o : tcp_sig) : bool := ttl_form_gap s o || win_mod_raw s o.
+Definition known_tcp (s o : tcp_sig) : bool := ttl_form_gap s o.
 
 (* ---- "differs from an instance in a single non-decisive field", stated on the observation itself ---- *)
 Inductive tcp_field := FTtl | FOlen | FMss | FWsize | FWscale.
@@ -158,8 +154,8 @@ Definition single_field_off (f : tcp_field) (s o : tcp_sig) : bool :=
   && forallb (fun g => tcp_field_eqb g f || field_admits g s o) all_tcp_fields.
 (* ... and its value is of a form comparable with the signature's (and, not being admitted, differs):
    olen: always;  mss / wscale: both present;  ittl: the signature a plain value, the observation not marked
-   bad and standing for another initial TTL (t + d within u8);  wsize: the same form, or a raw value against
-   `mss*k` with a usable observed MSS *)
+   bad and standing for another initial TTL (t + d within u8);  wsize: the same form, a raw value against
+   `mss*k` with a usable observed MSS, or a raw value against `%n` *)
 Definition field_differs_comparably (f : tcp_field) (s o : tcp_sig) : bool :=
   match f with
   | FOlen => true
@@ -172,17 +168,11 @@ Definition field_differs_comparably (f : tcp_field) (s o : tcp_sig) : bool :=
   | FWsize => match t_wsize s, t_wsize o with
               | WMss _, WMss _ | WMtu _, WMtu _ | WValue _, WValue _ | WMod _, WMod _ => true
               | WMss _, WValue _ => match t_mss o with Some m => 0 <? m | None => false end
+              | WMod _, WValue _ => true
               | _, _ => false end
   end.
 Definition field_penalty (f : tcp_field) : N :=
   match f with FTtl => pen_ttl | FOlen => pen_olen | FMss => pen_mss | FWsize => pen_wsize | FWscale => pen_wscale end.
-(* K5 WinMssInexact: signature window `mss*k`, observed raw window w with w / mss = k but w <> k * mss: the
-   matcher compares the integer quotient, so a window that is NOT a multiple of the MSS costs nothing. *)
-Definition win_mss_inexact (s o : tcp_sig) : bool :=
-  match t_wsize s, t_wsize o, t_mss o with
-  | WMss k, WValue w, Some m => (0 <? m) && (w / m =? k) && negb (w =? k * m)
-  | _, _, _ => false end.
-
 (* ---------------------------------------------------------------- HTTP *)
 Definition hversion_inst (sv ov : http_version) : Prop := sv = HVAny \/ ov = sv.
 Definition hversion_inst_b (sv ov : http_version) : bool := http_version_eqb sv HVAny || http_version_eqb ov sv.
